@@ -154,9 +154,7 @@ def setRowDb (db : Cls → Id → Option Row) (cls : Cls) (id : Id) (r : Option 
 
 /-- effect of `UPDATE t SET … WHERE id = …` (no row: nothing happens, no error) -/
 def updRow (db : Cls → Id → Option Row) (cls : Cls) (id : Id) (p : Pend) : Cls → Id → Option Row :=
-  match db cls id with
-  | some row => setRowDb db cls id (some (applyUpd row p))
-  | none => db
+  fun c i => if c = cls ∧ i = id then (db c i).map (fun row => applyUpd row p) else db c i
 
 /-- one UPDATE statement is sent; it takes effect unless the database refuses it (`fail`) -/
 def sendUpdate (s : State) (o : Inst) (p : Pend) (fail : Bool) : State :=
@@ -192,10 +190,13 @@ def opCreate (cfg : Cfg) (s : State) (h : Hnd) (cls : Cls) (id : Id) (kvs : List
     let s3 := logStmt s2 (.selectRow cls id)
     (register s3 h (freshInst cfg cls id row), .ok)
 
+def fetchLog (s : State) (viaSelect : Bool) (cls : Cls) (id : Id) : State :=
+  if viaSelect then s else logStmt s (.selectRow cls id)
+
 /-- `get` on a cache miss (`viaSelect`: row handed over by a select, no SELECT of its own) -/
 def opFetch (cfg : Cfg) (s : State) (h : Hnd) (cls : Cls) (id : Id) (viaSelect : Bool) : State × Out :=
   if (s.objs h).isSome then (s, .badHandle) else
-  let s1 := if viaSelect then s else logStmt s (.selectRow cls id)
+  let s1 := fetchLog s viaSelect cls id
   match s.db cls id with
   | none => (s1, .notFound)
   | some row => (register s1 h (freshInst cfg cls id row), .ok)
